@@ -446,6 +446,13 @@ impl<CS: BbsCiphersuite> PoKSignature<BBSplus<CS>> {
             Some(api_id)
         )?;
 
+        // j + L + 1 must be an index into the L + 1 + M message slots
+        if disclosed_commitment_indexes.iter().any(|&j| j >= M) {
+            return Err(Error::PoKSVerificationError(
+                "commitment disclosed index out of range".to_owned(),
+            ));
+        }
+
         let indexes = disclosed_indexes
             .iter()
             .copied()
